@@ -60,6 +60,11 @@ def h_backfill(ctx, case):
         ctx.exception(e)
         return 'EXC ' + type(e).__name__
     import copy
+    # the runner marks every voted level before the back-fill
+    # (election_runner.run_type_assignment_on_h5ad)
+    for cell in result:
+        for lv in kept:
+            cell[lv]['directly_assigned'] = True
     before = copy.deepcopy(result)
     out = tree.backfill_assignments(result)
     ctx.reach('backfilled')
@@ -67,6 +72,8 @@ def h_backfill(ctx, case):
         for li, lv in enumerate(levels):
             ctx.check(lv in cell, 'every level of the stored tree present')
             if lv in kept:
+                ctx.check(cell[lv].get('directly_assigned') is True,
+                          'voted level stays flagged as directly assigned')
                 ctx.check(cell[lv] is b[lv] or cell[lv] == b[lv]
                           if ctx.mode != 'sym' else True,
                           'voted levels untouched')
@@ -107,7 +114,9 @@ def tree_cases(max_levels, total):
 
 QUICK = [{'sizes': s} for s in ([1], [2], [3], [1, 2], [2, 2], [2, 3],
                                 [1, 1, 2], [1, 2, 3], [2, 2, 3], [2, 1],
-                                [1, 1, 1], [1, 3])]
+                                [1, 1, 1], [1, 3])] \
+    + [{'sizes': [2, 3], 'alias': True}, {'sizes': [2, 2, 2], 'alias': True,
+                                         'max_nas': 1}]
 THOROUGH = QUICK + [{'sizes': s} for s in ([2, 3, 4], [2, 2, 4], [3, 4],
                                           [1, 2, 2, 3], [2, 2, 2, 3],
                                           [2, 4], [4], [3, 2], [2, 3, 3],
@@ -127,7 +136,22 @@ STUBS = ['matching.assemble_query_data -> leaves under the parent and their '
 ASSUME = ['each bootstrap iteration casts exactly one vote with a '
           'correlation in [-1,1] (discharged for the kernel in C02)']
 
+from harness import C02 as _C02  # noqa: E402
+
 HARNESSES = [
+    Harness('vote_counter_no_wrap', _C02.h_tally, setup=_C02.setup_tally,
+            cases=[{'markers': 1, 'cells': 1, 'refs': 1, 'iterations': n}
+                   for n in (255, 256, 300)],
+            thorough_cases=[{'markers': 1, 'cells': 1, 'refs': 1,
+                             'iterations': n}
+                            for n in (255, 256, 257, 65535, 65536)],
+            funcs=['election.tally_votes', 'utils.choose_int_dtype'],
+            stubs=['rng / nearest-neighbour kernel -> see C02 tally_votes'],
+            bounds='iteration counts around the uint8 / uint16 boundaries, '
+                   'one marker, one reference row: every store into the '
+                   'vote counter must fit its integer type (probability '
+                   'is a whole number of votes out of the iteration count)',
+            expect_reach=['returned']),
     Harness('level_loop_confidence', h_levels, setup=LL.setup, cases=QUICK,
             thorough_cases=THOROUGH, funcs=FUNCS, stubs=STUBS,
             assumptions=ASSUME, classify=classify,
